@@ -33,4 +33,10 @@ MUTANTS = [
     ("f08", ["C01", "C14"], M, "            if np.greater(cell, self.region.edges + tol).any():",
      "            if np.greater(cell, self.region.edges * (1 + 1e-15)).any():",
      "42d3b52b (constructor half) reverted: 'cell exceeds region' without tolerance"),
+    ("f09", ["C04"], F, """            self.mesh.bc not in ("neumann", "dirichlet")
+            and len(direction) == 1""", """            len(direction) == 1""",
+     "2431db5c reverted: the letters of the keywords 'neumann' / 'dirichlet' read as periodic directions"),
+    ("f10", ["C04"], F, """            and len(direction) == 1
+            and direction in self.mesh.bc""", """            and direction in self.mesh.bc""",
+     "8d9d0f94 reverted: substring test for periodic directions"),
 ]
